@@ -75,7 +75,8 @@ def run (j : Json) : Except String Json := do
       out := out ++ [("ser", resToJson s)]
       match s with
       | .ok d =>
-        out := out ++ [("isJson", Json.bool (isJson d)), ("back", resToJson (deserialize O opts cls d))]
+        out := out ++ [("isJson", Json.bool (isJson d)), ("docStable", Json.bool (docStable d)),
+                       ("back", resToJson (deserialize O opts cls d))]
       | .error _ => pure ()
     | .error _ => pure ()
   if let some dj := optField j "doc" then
